@@ -113,6 +113,7 @@ def one_run(case, res, sim):
     for i in range(case.get("history_lines", 2)):
         term.feed("h%d\r\n" % i)
     pty = Pty(h, w)
+    os.set_blocking(pty.master, False)
     callbacks, inputs = [], []
     init = case.get("init", {})
     wake_r = wake_w = None
@@ -220,7 +221,10 @@ def one_run(case, res, sim):
                         elif op["op"] == "request":
                             for inp in inputs:
                                 if op.get("data"):
-                                    os.write(pty.master, bytes.fromhex(op["data"])[:3000])
+                                    try:
+                                        os.write(pty.master, bytes.fromhex(op["data"])[:3000])
+                                    except BlockingIOError:
+                                        res.label("pty_full_write_skipped")  # never block the single-threaded harness
                                 fl_pre = fcntl.fcntl(pty.slave, fcntl.F_GETFL)
                                 sigint_safe = init.get("handler", "default") != "dfl" or opts.get("sigint_event", False)
                                 if ex["mode"] == "sigint" and ex.get("after", 0) == k and on_main and sigint_safe:
